@@ -144,7 +144,14 @@ def rints(rng, n, lo=-2, hi=3):
 MID_SPACES = [1, 2, 3, 2, 3, (2, 1), (1, 2), (2, 2), (1, 1, 2)]
 
 
+CSCALARS = [(1, 2), (0, 1), (-1, 1), (2, -1), (1, -2), (0, -2), (3, 1)]
+
+
 def gen_leaf(rng, S, T):
+    if is_cplx(S) and is_cplx(T):
+        assert S == T
+        return {'k': 'comp', 'dom': S, 'ran': T, 'l': gen_leaf(rng, S[1], T),
+                'r': gen_leaf(rng, S, S[1]), 'tmp': False}
     if is_cplx(S):
         assert T == S[1], (S, T)
         return {'k': rng.choice(['cmodsq', 'cmodsq', 'realpart', 'imagpart']), 'dom': S, 'ran': T}
@@ -188,6 +195,10 @@ def gen(rng, S, T, depth):
         # complex spaces: only what the flat real reading of the model covers (no point-wise
         # products with complex vectors/values)
         ks = ['sum', 'sum', 'comp', 'comp', 'lscal', 'rscal', 'vecsum']
+        if is_cplx(T):
+            ks += ['clscal', 'clscal']
+        if is_cplx(S):
+            ks += ['crscal', 'crscal', 'crscal']
     else:
         ks = ['sum', 'sum', 'comp', 'comp', 'comp', 'lscal', 'rscal', 'rvec', 'pprod', 'pprod']
         if T != 'R':
@@ -209,10 +220,12 @@ def gen(rng, S, T, depth):
                 'tr': T != 'R' and rng.random() < 0.5, 'td': rng.random() < 0.4}
         return node
     if k == 'comp':
-        if is_cplx(S):
-            M = T            # (cn(n) -> rn(n)) then rn(n) -> rn(n)
+        if is_cplx(S) and is_cplx(T):
+            M = rng.choice([S[1], S])
+        elif is_cplx(S):
+            M = rng.choice([T, T, S])   # through rn(n) or through cn(n)
         elif is_cplx(T):
-            M = S            # rn(n) -> rn(n) then (rn(n) -> cn(n))
+            M = rng.choice([S, S, T])
         else:
             M = rng.choice(MID_SPACES + [S, T if T != 'R' else S])
             if isinstance(S, int) and S == T and rng.random() < 0.35:
@@ -222,6 +235,9 @@ def gen(rng, S, T, depth):
     if k in ('lscal', 'rscal'):
         return {'k': k, 'dom': S, 'ran': T, 'op': gen(rng, S, T, d1),
                 's': rng.choice([-2, -1, 2, 3, 2, 3, 0])}
+    if k in ('clscal', 'crscal'):
+        a, b = rng.choice(CSCALARS)
+        return {'k': k, 'dom': S, 'ran': T, 'op': gen(rng, S, T, d1), 'a': a, 'b': b}
     if k == 'vecsum':
         return {'k': k, 'dom': S, 'ran': T, 'op': gen(rng, S, T, d1), 'v': rints(rng, dim(T))}
     if k == 'lvec':
@@ -314,6 +330,10 @@ def tokens(n):
         return ['comp', str(dim(n['l']['dom'])) if n['tmp'] else '-'] + tokens(n['l']) + tokens(n['r'])
     if k in ('lscal', 'rscal'):
         return [k, fs(n['s'])] + tokens(n['op'])
+    if k == 'clscal':
+        return ['clscal', str(T[1]), fs(n['a']), fs(n['b'])] + tokens(n['op'])
+    if k == 'crscal':
+        return ['crscal', str(S[1]), fs(n['a']), fs(n['b'])] + tokens(n['op'])
     if k in ('vecsum', 'lvec', 'rvec'):
         return [k, fl(n['v'])] + tokens(n['op'])
     if k == 'pprod':
@@ -388,6 +408,10 @@ def build(n):
         return odl.OperatorLeftScalarMult(build(n['op']), float(n['s']))
     if k == 'rscal':
         return odl.OperatorRightScalarMult(build(n['op']), float(n['s']))
+    if k == 'clscal':
+        return odl.OperatorLeftScalarMult(build(n['op']), complex(n['a'], n['b']))
+    if k == 'crscal':
+        return odl.OperatorRightScalarMult(build(n['op']), complex(n['a'], n['b']))
     if k == 'vecsum':
         return odl.OperatorVectorSum(build(n['op']), elem(T, n['v']))
     if k == 'lvec':
@@ -459,6 +483,10 @@ def bnd(n, bx):
         return _chk(abs(n['s']) * bnd(n['op'], bx))
     if k == 'rscal':
         return bnd(n['op'], _chk(abs(n['s']) * bx))
+    if k == 'clscal':
+        return _chk((abs(n['a']) + abs(n['b'])) * bnd(n['op'], bx))
+    if k == 'crscal':
+        return bnd(n['op'], _chk((abs(n['a']) + abs(n['b'])) * bx))
     if k == 'vecsum':
         return _chk(bnd(n['op'], bx) + max(abs(v) for v in n['v']))
     if k in ('lvec', 'flvec'):
@@ -502,6 +530,11 @@ def dbnd(n, bx, bd):
     if k == 'rscal':
         s = max(abs(n['s']), 1)
         return _chk(s * dbnd(n['op'], _chk(s * bx), _chk(s * bd)))
+    if k == 'clscal':
+        return _chk((abs(n['a']) + abs(n['b'])) * dbnd(n['op'], bx, bd))
+    if k == 'crscal':
+        c = abs(n['a']) + abs(n['b'])
+        return dbnd(n['op'], _chk(c * bx), _chk(c * bd))
     if k == 'vecsum':
         return dbnd(n['op'], bx, bd)
     if k in ('lvec', 'flvec'):
@@ -521,7 +554,8 @@ def dbnd(n, bx, bd):
 TOP_SPACES = [(2, 2), (2, 3), (3, 2), (3, 3), (1, 2), (2, 1), (3, 1), ((2, 1), 2), (2, (1, 2)),
               ((2, 2), (2, 2)), ((1, 2), (2, 1)), (3, 'R'), (2, 'R'), ((2, 1), 'R'), (2, (2, 2)),
               ((2, 1), 3), ((2, 1), (1, 2)), ((1, 2), (2, 2)), ((2, 2), (3, 1)), ((2, 1, 1), (2, 2)),
-              (('c', 2), 2), (2, ('c', 2)), (3, ('c', 3)), (('c', 1), 1), (2, 2), (3, 3)]
+              (('c', 2), 2), (2, ('c', 2)), (3, ('c', 3)), (('c', 1), 1), (2, 2), (3, 3),
+              (('c', 2), ('c', 2)), (('c', 2), ('c', 2)), (('c', 1), ('c', 1)), (('c', 2), 2)]
 
 
 def gen_case(rng, depth):
@@ -640,7 +674,7 @@ def branch_tags(n, op):
         m, o = stack.pop()
         k = m['k']
         lin = bool(o.is_linear)
-        if k in ('sum', 'comp', 'lscal', 'lvec', 'rvec', 'flvec', 'pso'):
+        if k in ('sum', 'comp', 'lscal', 'lvec', 'rvec', 'flvec', 'pso', 'clscal'):
             tags.append('{}/{}'.format(k, 'linear-shortcut' if lin else 'rule'))
         else:
             tags.append(k)
@@ -655,7 +689,7 @@ def branch_tags(n, op):
         if k in ('sum', 'comp', 'pprod'):
             stack.append((m['l'], o.left))
             stack.append((m['r'], o.right))
-        elif k in ('lscal', 'rscal', 'vecsum', 'lvec', 'rvec'):
+        elif k in ('lscal', 'rscal', 'vecsum', 'lvec', 'rvec', 'clscal', 'crscal'):
             # OperatorLeft/RightScalarMult merge nested scalar multiplications: do not descend by
             # attribute there, rebuild the child instead
             stack.append((m['op'], build(m['op'])))
@@ -1229,7 +1263,7 @@ EXPECTED_BRANCHES = ['model/' + b for b in [
     'lscal/linear-shortcut', 'lscal/rule', 'rscal', 'lvec/linear-shortcut', 'lvec/rule',
     'rvec/linear-shortcut', 'rvec/rule', 'pprod', 'pprod/functional', 'pprod/vector',
     'flvec/linear-shortcut', 'flvec/rule', 'bcast', 'reduce', 'diag', 'pso/linear-shortcut', 'pso/rule',
-    'cmodsq', 'realpart', 'imagpart', 'cembed']]
+    'cmodsq', 'realpart', 'imagpart', 'cembed', 'clscal/linear-shortcut', 'clscal/rule', 'crscal']]
 
 
 def search(ctx, broken):
